@@ -1,13 +1,14 @@
 (* The engine's START sequence and its clean-up, as a resource ledger.
 
    Hand-written from gnet.go (Run / Rotate: createListeners, the deferred close of the listeners),
+   listener_unix.go (initListener),
    engine_unix.go (run, start, runEventLoops, activateReactors, closeEventLoops, closeListeners,
    stop), listener_unix.go (listener.close with its sync.Once) and pkg/netpoll (OpenPoller,
    Poller.Close; both poller variants create and close the same descriptors in the same order).
 
    What is modelled: which descriptors are created (listener sockets, epoll descriptors, eventfds),
-   which calls can fail (epoll_create1, eventfd, epoll_ctl ADD: the calls the `startfault` runs of
-   drv-loop make fail), which descriptors are closed on which path, when the loop goroutines are
+   which calls can fail (epoll_create1, eventfd, epoll_ctl ADD, socket(2) of a listener, the option step
+   of initListener: the calls the `startfault` runs of drv-loop make fail), which descriptors are closed on which path, when the loop goroutines are
    started, and what Run returns.  A descriptor is named by its creation index.  Nothing else of the
    engine is here: the running engine is Model/Engine.v and Model/Loop.v.
 
